@@ -4,6 +4,7 @@
 mod batch;
 mod corpus;
 mod e3;
+mod e4;
 mod gen;
 mod host;
 mod json;
@@ -225,6 +226,36 @@ fn main() {
                 2
             },
         },
+        "plan" => {
+            // print the (PRNG-free) scenario that run R of a batch with seed S executes
+            let c = corpus::harvest(Path::new(&a.get("repo", "/repo")));
+            let seed = prng::run_seed(verif_seed(&a), a.u64("run", 0));
+            let pl = run::plan(seed, &c.inputs, a.get("tier", "quick") == "thorough");
+            println!("{}", pl.scenario.to_json().set("cfg", J::s(format!("{:?}", pl.cfg))).to_string_pretty());
+            0
+        },
+        "exec" => {
+            // execute a scenario file (worlds sequentially) and print one line per expansion
+            let t = std::fs::read_to_string(a.get("_0", "")).unwrap_or_default();
+            match J::parse(&t).and_then(|j| scenario::Scenario::from_json(j.get("scenario").unwrap_or(&j))) {
+                Ok(sc) => match scenario::execute(&sc) {
+                    Ok(ex) => {
+                        for o in &ex.obs {
+                            println!("{} {} {} {:016x} {:016x}", o.world, o.op, o.input, o.keyfp, scenario::fnv64(&o.outcome));
+                        }
+                        0
+                    },
+                    Err(e) => {
+                        eprintln!("HARNESS-ERROR: {e}");
+                        2
+                    },
+                },
+                Err(e) => {
+                    eprintln!("bad scenario: {e}");
+                    2
+                },
+            }
+        },
         "corpus" => {
             let c = corpus::harvest(Path::new(&a.get("repo", "/repo")));
             println!("sites={} distinct={} by_origin={:?}", c.sites, c.inputs.len(), c.by_origin);
@@ -236,6 +267,7 @@ fn main() {
             0
         },
         "gen" => {
+            std::panic::set_hook(Box::new(|_| {}));
             let mut rng = prng::Rng::new(a.u64("seed", 1));
             for k in 0..a.u64("n", 5) {
                 let opts = gen::GenOpts { error_pct: a.u64("error-pct", 15), into_heavy: rng.chance(3, 10) };
@@ -246,6 +278,19 @@ fn main() {
                 }
             }
             0
+        },
+        "e4" => match e4::run(&a, verif_seed(&a)) {
+            Ok(r) => {
+                println!("{}", r.coverage.to_string_pretty());
+                for v in &r.violations {
+                    println!("VIOLATION property=C16 replay={}", v.get("replay").and_then(|x| x.str()).unwrap_or(""));
+                }
+                if r.violations.is_empty() { 0 } else { 1 }
+            },
+            Err(e) => {
+                eprintln!("HARNESS-ERROR: {e}");
+                2
+            },
         },
         "e3" => match e3::run(&a, &a.get("tier", "quick"), verif_seed(&a)) {
             Ok(r) => {
